@@ -222,11 +222,7 @@ func lookupFunc(p *ssa.Package, name string) *ssa.Function {
 		if t == nil {
 			return nil
 		}
-		T := t.Type()
-		if f := p.Prog.LookupMethod(types.NewPointer(T), p.Pkg, mn); f != nil {
-			return f
-		}
-		return p.Prog.LookupMethod(T, p.Pkg, mn)
+		return findMethod(p.Prog, t.Type(), mn)
 	}
 	return p.Func(name)
 }
@@ -322,4 +318,17 @@ func calleeIs(fn *ssa.Function, pkgPath, recv, name string) bool {
 		return false
 	}
 	return typeIs(r.Type(), pkgPath, recv)
+}
+
+// findMethod looks a method up in the method sets of *T and T without panicking when absent.
+func findMethod(prog *ssa.Program, T types.Type, name string) *ssa.Function {
+	for _, t := range []types.Type{types.NewPointer(T), T} {
+		ms := prog.MethodSets.MethodSet(t)
+		for i := 0; i < ms.Len(); i++ {
+			if ms.At(i).Obj().Name() == name {
+				return prog.MethodValue(ms.At(i))
+			}
+		}
+	}
+	return nil
 }
